@@ -205,6 +205,9 @@ where
                         server_pending = true;
                     }
                 }
+            } else {
+                // No replier is bound, so there is nothing to wait for on that side
+                server_pending = true;
             }
 
             // If we've got a reply buffered already, we need to write it to the sink
@@ -243,6 +246,9 @@ where
                         let si = &mut server.as_mut().as_pin_mut().unwrap().0;
                         ready!(si.poll_flush_unpin(cx)).unwrap();
                     }
+
+                    // No requestor streams exist, so there is nothing to wait for on that side
+                    stream_pending = true;
                 }
                 // No messages are available at this time
                 Poll::Pending => {
